@@ -123,6 +123,8 @@ def rank_case(draw, tier):
                                    "1e-12*"]))
     return {"x": x, "kind": kind, "P": P, "nd": nd, "pscale": pscale,
             "cst": draw(st.sampled_from([0., 0.3, 0.5])),
+            "rank_method": draw(st.sampled_from(["average", "average", "min",
+                                                 "max", "first", "dense"])),
             "layout": draw(st.sampled_from(["C", "F", "strided"]))}
 
 
@@ -153,6 +155,35 @@ def rank_oracle(case):
             raise Violation("tied data receive different normal scores")
     if not np.all(np.isfinite(un)) and case["cst"] > 0:
         raise Violation("normal scores not finite")
+    # the other ways of ranking: the scores are a strictly increasing
+    # function of the ranks returned with them
+    from scipy.stats import rankdata, norm as _norm
+    meth = case.get("rank_method", "average")
+    calls = [(dict(cst=case["cst"], rank_method=meth), x,
+              rankdata(x, method="ordinal" if meth == "first" else meth)
+              - 1.0)]
+    if n:
+        xs_ = np.sort(x)
+        calls.append((dict(cst=case["cst"], sorted=True), xs_,
+                      np.arange(n, dtype=np.float64)))
+    for kw, xin, rexp in calls if n else []:
+        u_, r_ = sutils.standard_normal(xin.copy(), **kw)
+        u_, r_ = np.asarray(u_, dtype=np.float64), \
+            np.asarray(r_, dtype=np.float64)
+        if not np.array_equal(r_, rexp):
+            raise Violation(f"standard_normal({kw}) ranks {r_.tolist()} != "
+                            f"{rexp.tolist()} for {xin.tolist()}")
+        oo = np.argsort(r_, kind="stable")
+        dr, du = np.diff(r_[oo]), np.diff(u_[oo])
+        if not (np.all(du[dr > 0] > 0) and np.all(du[dr == 0] == 0)):
+            raise Violation(f"standard_normal({kw}): scores are not a "
+                            "strictly increasing function of the ranks")
+        eu = _norm.ppf((rexp + 1 - case["cst"]) / (n + 1 - 2 * case["cst"]))
+        if not np.allclose(u_, eu, atol=1e-12, rtol=1e-12):
+            raise Violation(f"standard_normal({kw}) scores differ from "
+                            "the normal quantiles of the plotting "
+                            "positions of the ranks")
+    labels.append(f"rank_method:{meth}")
     # pareto
     nd = case["nd"]
     P = np.array(case["P"], dtype=np.float64).reshape(len(case["P"]), nd)
@@ -242,7 +273,7 @@ def frame_case(draw, tier, maxrows=300):
     by = [draw(st.integers(0, ng - 1)) if draw(st.integers(0, 2))
           else 0 for _ in range(nrow)]
     return {"cols": cols, "bc": bc, "wc": min(wc, 100.0), "by": by,
-            "draw": draw(st.integers(0, 3)),
+            "draw": draw(st.integers(0, 4)),
             "container": draw(st.sampled_from(["frame", "array"]))}
 
 
@@ -302,7 +333,16 @@ def box_oracle(case):
         if case["container"] == "frame" else arr
     labels = []
     nt = False
-    st_ = boxplot.Boxplot(data, box_coverage=bc, whiskers_coverage=wc).stats
+    # display options do not enter the summaries
+    OPTS = [{}, {"style": "narrow"}, {"show_mean": True, "show_text": True},
+            {"width_from_count": True, "show_median": False},
+            {"style": "narrow", "show_mean": True, "number_format": "0.4f",
+             "center_text": False, "linewidth": 1}]
+    opts = OPTS[case.get("draw", 0) % len(OPTS)] if nrow else {}
+    if opts:
+        labels.append("display-options:" + ",".join(sorted(opts)))
+    st_ = boxplot.Boxplot(data, box_coverage=bc, whiskers_coverage=wc,
+                          **opts).stats
     if st_.shape[1] != len(cols):
         raise Violation(f"stats has {st_.shape[1]} columns")
     if nrow == 0:
